@@ -303,18 +303,20 @@ def main(tier):
         classes = [dc.COMP_CLASS] if comp else dc.PLAIN_CLASSES
         rep = {}
         for cname, filt, ban in classes:
-            needs_rows = ("sw1" in cname) or cname.endswith("_ra") or comp
-            for ctor in ((0, 1) if (needs_rows and not (quick and comp)) else (0,)):
+            needs_rows = ("sw1" in cname) or cname.endswith("_ra")
+            # constructors: Matrix() for every class; Matrix(n, p) in addition where row dictionaries are vectors
+            # (compression: the default constructor in the quick tier, the reserving one in the thorough tier)
+            for ctor in ((0, 1) if needs_rows else ((0,) if (quick or not comp) else (1,))):
                 parts = [2] if comp else ([0, 1] if P == 2 else [1])
                 bl = [b for (ct, p_), b in sorted(bins.items()) if p_ in parts]
                 env = {"VF_P": str(P), "VF_NR": str(NR), "VF_CTOR": str(ctor), "VF_RESERVE": "4", "VF_FILTER": filt}
                 work = os.path.join(vf.BUILD, "work", "%s_%s_%s_%d_%d" % (PROP, part, cname, ctor, os.getpid()))
-                big = g.nedges > 120000
+                big = g.nedges > (40000 if comp else 120000)
                 kw = dict(shards=1, rnd=rnd, walks=(150 if quick else 300), walk_len=8, walk_edges=10,
                           max_edges_per_state=(12 if big else None))
                 tb = comp_tree_banned(g) if comp else None
                 if comp:
-                    kw["tree_banned_keep"] = 3 if quick else 8
+                    kw["tree_banned_keep"] = 3 if quick else 2
                 summ, devs, crashes, nb, nreach = dc.run_replay(g, bl, work, env, ban, tree_banned=tb, **kw)
                 seen = set()
                 known_cfgs = set()
@@ -375,7 +377,7 @@ def main(tier):
         vf.log("[c09] traces done at %.1fs" % (time.time() - t0))
     ev.cov["evaluations"] = total_beh
     ev.cov["distinct_nontrivial"] = ev.cov["states"]
-    ev.cov["exhaustive"] = not any(p.get("graph_edges", 0) > 120000 for p in ev.parts.values())
+    ev.cov["exhaustive"] = quick   # thorough tier: TLC enumerates the bounded models completely, the replay samples edges
     ev.cov["configurations"] = len(cfg_names)
     ev.cov["rule"] = ("every transition of the bounded DenseMatrix.tla / CompressedMatrix.tla state graphs (TLC BFS, complete) "
                       "replayed as a behaviour init ~> u -> v (BFS tree path, plus random non-shortest walks) on a fresh "
